@@ -135,7 +135,9 @@ CHECKS = {
     "C16": dict(
         text="get_merged_ancestor_outputs on every DAG with 4 stages and every choice of publishing stages (solver-chosen edge bits), "
              "_plan_stage's merge (own context / ancestors / reducers) and apply_output_reducers with symbolic branch values under every "
-             "permutation, all executed by CrossHair; engine level: ledger contexts in the C01/C02/C15 explorations.",
+             "permutation, a re-planning of a re-armed stage after its ancestors published new values, all executed by CrossHair; engine level: "
+             "under solver-chosen delivery schedules, late messages and crash points (jump loops included) every task execution must see each "
+             "ancestor's latest o_<ancestor> value and no non-ancestor's.",
         note="Bounds: <=5 stages; only path-ordered scalar keys asserted; the SELECT feeding the merge is replaced by a row provider in the "
              "function lemma (the SQL text runs in the engine-level checks).",
         design="3/C16",
